@@ -24,6 +24,7 @@ import random
 import socket
 import struct
 import sys
+import weakref
 
 import common
 from common import hexb, unhex
@@ -209,16 +210,47 @@ class FakeSender:
         pass
 
 
+class SockHandle:
+    """The object the real code holds for a server socket.  The engine never keeps a strong
+    reference to it: when the real code drops its last reference (CPython closes the descriptor
+    then) or calls close(), the engine-side record `FakeSock` is marked released.  This is how the
+    resource oracle sees whether per-query state is let go."""
+
+    def __init__(self, rec):
+        self.__dict__['rec'] = rec
+        weakref.finalize(self, rec.mark_released)
+
+    def __getattr__(self, name):
+        return getattr(self.rec, name)
+
+    def __repr__(self):
+        return '<sock %d>' % self.rec.sid
+
+    def close(self):
+        self.rec.mark_released()
+
+
 class FakeSock:
-    """A datagram socket created by the server (resolver socket or UdpProxy socket)."""
+    """Engine-side record of a datagram socket created by the server (resolver socket or
+    UdpProxy socket); the real code gets a `SockHandle` to it."""
 
     def __init__(self, world, family, _type):
+        open_now = sum(1 for r in world.socks.values() if not r.released)
+        if world.fd_budget is not None and open_now >= world.fd_budget:
+            world.h('fd-budget-exhausted')
+            raise OSError(errno.EMFILE, os.strerror(errno.EMFILE))
         self.w = world
         self.family = family
         self.sid = world.next_sock
         world.next_sock += 1
         world.socks[self.sid] = self
-        self.owner = world.cur_owner      # ground truth: which query / association it serves
+        own = world.cur_owner             # ground truth: which query / association it serves
+        self.owner_ref = weakref.ref(own) if own is not None else (lambda: None)
+        self.kind = 'dns' if isinstance(own, world.RecDnsProxy) else 'udp' if isinstance(own, world.RecUdpProxy) else None
+        self.owner_meta = getattr(own, 'meta', None)
+        self.owner_hid = getattr(own, 'hid', None)
+        self.released = False
+        self.handle_ref = lambda: None
         self.peer = None
         self.pending = None
         self.log = []                     # (op, errno|0)
@@ -226,6 +258,13 @@ class FakeSock:
 
     def __repr__(self):
         return '<sock %d>' % self.sid
+
+    @property
+    def owner(self):
+        return self.owner_ref()
+
+    def mark_released(self):
+        self.released = True
 
     def fileno(self):
         return 2000 + self.sid
@@ -303,6 +342,8 @@ class World:
             self.rc_text = ''.join('nameserver %s\n' % ip for ip in self.nslist).encode('ascii')
         tons = kv(w, 'tons', '-')
         self.to_ns = None if tons == '-' else tons
+        fds = kv(w, 'fds')              # descriptor budget of the server process (EMFILE beyond it)
+        self.fd_budget = int(fds) if fds else None
         self.gen = None
         if callable(steps):
             self.gen, steps = steps, []
@@ -361,6 +402,12 @@ class World:
         self.violations.append(dict(key=key, step=self.pc - 1, line=self.steps[self.pc - 1] if self.pc else '',
                                     expected=expected, observed=observed))
 
+    def new_server_socket(self, fam, typ):
+        rec = FakeSock(self, fam, typ)
+        h = SockHandle(rec)
+        rec.handle_ref = weakref.ref(h)
+        return h
+
     def pop_result(self):
         if self.results:
             return self.results.pop(0)
@@ -398,7 +445,7 @@ class World:
             client.udp_by_src.clear()
             tproxy.socket = ModShim(socket, socket=lambda fam, typ=0, *a: FakeSender(world, fam, typ))
             server.socket = ModShim(
-                socket, socket=lambda fam, typ=0, *a: FakeSock(world, fam, typ),
+                socket, socket=lambda fam, typ=0, *a: world.new_server_socket(fam, typ),
                 getaddrinfo=lambda peer, port, *a, **k: [
                     (socket.AF_INET6 if ':' in peer else socket.AF_INET, socket.SOCK_DGRAM, 17, '',
                      (peer, int(port)))])
@@ -468,10 +515,18 @@ class World:
                 self.server_exit(e)
             finally:
                 sys.stdout = saved['stdout']
+            ended_normally = self.server_dead is None
             if self.server_dead is None:
                 self.server_dead = 'ended'
             # the rest of the scenario without a server
             self.interpret(server_alive=False)
+            if ended_normally or self.server_dead in ('fatal',):
+                self.shandlers = []
+                self.smux = None
+                self.dnshandlers = {}
+                self.udphandlers = {}
+                self.srv_pending = None
+                self.resource_oracle(final=True)
         finally:
             ssnet.set_non_blocking_io = saved['snb']
             ssnet.runonce = saved['runonce']
@@ -703,11 +758,11 @@ class World:
             else:
                 info['event'] = ('e', int(w[3]))
             if sock is not None:
-                live = [h for h in self.shandlers if h.ok and sock in h.socks]
+                live = [h for h in self.shandlers if h.ok and any(getattr(x, 'rec', None) is sock for x in h.socks)]
                 info['handler'] = live[0] if live else None
                 if live:
                     sock.pending = info['event']
-                    self.ready = {sock}
+                    self.ready = {x for x in live[0].socks if getattr(x, 'rec', None) is sock}
                     self.cur_owner = live[0]
         info['pre_alive'] = [h for h in self.shandlers if h.ok]
         self.srv_pending = info
@@ -737,8 +792,47 @@ class World:
             self.oracle_server(info, frames, raised)
         except Violation:
             pass
+        info.clear()
+        if not raised:
+            self.resource_oracle(final=False)
 
     # ================================================================ oracles (ground truth only)
+
+    def lingering_resolver_sockets(self):
+        """Resolver sockets still open although the query they were created for has been retired
+        (its DnsProxy is neither in `handlers` nor in `dnshandlers` any more)."""
+        live = {id(h) for h in (self.shandlers or [])} | {id(h) for h in self.dnshandlers.values()} \
+            if self.server_entered else set()
+        out = []
+        for r in self.socks.values():
+            if r.kind == 'dns' and not r.released:
+                own = r.owner_ref()
+                if own is None or id(own) not in live:
+                    out.append(r)
+        return out
+
+    def resource_oracle(self, final):
+        """C10 'state for a query is released when it is answered ... forgotten 30 seconds later':
+        once a query's handler is retired, the sockets created for it must be closed.  server.main's
+        loop variable `h` may keep the one handler it looked at last, so the sockets of ONE retired
+        handler are tolerated while the server runs; none once server.main has returned."""
+        self.cur_owner = None
+        self.ready = set()                # (holds the handle of the socket that was made ready)
+        def too_many(ling):
+            return len({r.owner_hid for r in ling}) > (0 if final else 1)
+        ling = self.lingering_resolver_sockets()
+        if too_many(ling):
+            import gc
+            gc.collect()
+            ling = self.lingering_resolver_sockets()
+        open_dns = sum(1 for r in self.socks.values() if r.kind == 'dns' and not r.released)
+        self.hist['max-open-resolver-sockets'] = max(self.hist.get('max-open-resolver-sockets', 0), open_dns)
+        if too_many(ling):
+            qids = sorted({r.owner_meta[1] for r in ling if r.owner_meta})
+            self.violate('C10:resolver-socket-not-released-after-query-retired',
+                         'every socket created for a retired (answered or expired) query is closed',
+                         '%d sockets still open: %s (queries %s); %d resolver sockets open in all'
+                         % (len(ling), [r.sid for r in ling][:12], qids[:12], open_dns))
 
     def allowed_resolvers(self):
         if self.to_ns is not None:
@@ -1020,8 +1114,7 @@ class World:
                     self.violate('C10:wrong-resolver', 'one of %r' % sorted(allowed), repr(s.peer))
                 own.__dict__.setdefault('attempt_log', []).append(s)
         for s, d in self.rsends:
-            own = s.owner
-            q = self.queries.get(own.meta[1]) if (own is not None and getattr(own, 'meta', None)) else None
+            q = self.queries.get(s.owner_meta[1]) if (s.kind == 'dns' and s.owner_meta) else None
             if q is not None and d != q['data']:
                 self.violate('C10:query-changed-on-the-way-to-resolver', hexb(q['data'])[:80], hexb(d)[:80])
             if q is not None:
@@ -1106,8 +1199,8 @@ class World:
                     if len(hs) != 1:
                         self.violate('C11:server-association-not-opened', 'one UdpProxy for association %d' % a['aid'], '%d' % len(hs))
                     else:
-                        a['ssock'] = hs[0].sock
-                        a['sh'] = hs[0]
+                        a['ssock'] = hs[0].sock.rec            # records only: the engine must not keep
+                        a['sh'] = weakref.ref(hs[0])           # server objects alive
                         for b in self.all_assocs:
                             if b is not a and b.get('ssock') is a['ssock']:
                                 self.violate('C11:two-sources-share-a-socket', 'distinct sockets', 'socket %d' % a['ssock'].sid)
@@ -1136,7 +1229,7 @@ class World:
                     a = self.all_assocs[meta[1]]
                     if raised:
                         continue
-                    h = a.get('sh')
+                    h = a['sh']() if a.get('sh') is not None else None
                     if h is not None and (h.ok or self.udphandlers.get(f[0]) is h or self.smux.channels.get(f[0])):
                         self.violate('C11:server-association-not-closed',
                                      'handler retired, id %d free on the server' % f[0], 'still open')
@@ -1152,6 +1245,14 @@ class World:
                     self.violate('C11:id-reuse:reopen-before-sweep-kills-server',
                                  'a fresh association opens after the old one was closed',
                                  'server Fatal (UDP connection channel already open)')
+                elif raised == 'osError.%d' % errno.EMFILE and self.fd_budget is not None:
+                    open_dns = sum(1 for r in self.socks.values() if r.kind == 'dns' and not r.released)
+                    live_q = sum(1 for h in self.shandlers if isinstance(h, self.RecDnsProxy))
+                    self.violate('C10:descriptor-leak:socket-creation-failed-EMFILE',
+                                 'the number of open resolver sockets stays bounded by the live queries (x3 attempts); '
+                                 'budget %d is never reached in this history' % self.fd_budget,
+                                 '%d resolver sockets open for %d live queries; socket() raised EMFILE and the server died'
+                                 % (open_dns, live_q))
                 elif not raised.startswith('osError'):
                     if all(m is not None for _f, m in info['frames']) and self.server_injected == 0:
                         kinds = {m[0] for _f, m in info['frames']}
@@ -1159,9 +1260,6 @@ class World:
                             self.violate('C11:server-raised:' + raised, 'the server handles the frames the client sent', raised)
                         if 'dns' in kinds:
                             self.violate('C10:server-raised:' + raised, 'the server handles the frames the client sent', raised)
-        # the server never answers a query twice
-        for h in [x for x in self.shandlers if isinstance(x, self.RecDnsProxy)]:
-            pass
 
 
 def run_case(cfg_line, steps, shuffle_seed=0):
@@ -1282,10 +1380,10 @@ class ScenarioGen:
             return 'cdeliver'
         if name == 'ssock':
             live = [s for s in w.socks.values()
-                    if any(h.ok and s in h.socks for h in w.shandlers)]
+                    if any(h.ok and any(getattr(x, 'rec', None) is s for x in h.socks) for h in w.shandlers)]
             pool = live if (live and rng.random() < 0.85) else list(w.socks.values())
             s = rng.choice(pool)
-            is_udp = isinstance(s.owner, w.RecUdpProxy)
+            is_udp = s.kind == 'udp'
             err_ok = self.faults and ((is_udp and self.focus == 'udp') or (not is_udp and self.focus == 'dns'))
             if err_ok and rng.random() < (0.12 if is_udp else 0.3):
                 e = rng.choice(NET_ERRNOS) if rng.random() < 0.8 else rng.choice(OTHER_ERRNOS)
@@ -1387,6 +1485,16 @@ def corpus(focus):
             cases.append(('resolv-conf-' + name,
                           'cfg method=tproxy max=65535 probes=1024 rc=%s tons=-' % hexb(text.encode('ascii')),
                           [q % '01', q % '02', 'sround 2', 'ssock 0 d 10.11.12.13|53 aa', 'cdeliver']))
+        # a long sequential history: every query answered (or expired) before the next; 16 descriptors
+        long_steps = []
+        for i in range(40):
+            long_steps += [q % ('%02x' % i), 'sround 1']
+            if i % 5 == 4:
+                long_steps += ['tick %d' % (T + 1), 'caccept']          # this one is never answered
+            else:
+                long_steps += ['ssock %d d 1.1.1.1|53 %02xff' % (i, i), 'cdeliver', 'tick 64']
+        long_steps += ['sround 0']
+        cases.append(('dns-long-history', 'cfg method=tproxy max=65535 probes=1024 ns=1.1.1.1 tons=- fds=16', long_steps))
         for d in (T - 1, T, T + 1):
             cases.append(('dns-expiry-%d' % d, 'cfg method=tproxy max=65535 probes=1024 ns=1.1.1.1 tons=-',
                           [q % '01', 'tick 5', q % '02', 'tick %d' % (d - 5), 'caccept', 'tick 5', 'caccept',
